@@ -145,6 +145,28 @@ Proof.
   vm_compute. intros ND. inversion ND as [|? ? H1 ND1]; subst. apply H1. simpl. auto 10.
 Qed.
 
+(* ---- kept finding, the same door through add_attribute (not wrapped by the mixin either; accepted under strict=True as well):
+   m.add_attribute('A', 99) stores an entry under the ALIAS name - m.A then reads that entry (99; Python finds the instance
+   attribute before __getattr__ is asked) while m['A'] is X, and m.A = 5 overwrites X while the entry A stays 99 *)
+Theorem add_attribute_alias_name_refuted :
+  exists am s o,
+    WFam am /\ NoDup (akeys (amap am)) /\ Inv s /\ In "A" (akeys (amap am)) /\ o = AddAttribute "A" (OScalar (PInt 99)) /\
+    snd (alias_step am o s) = Ret tt /\
+    (let s1 := fst (alias_step am o s) in
+     assoc "A" (adict s1) = Some (OScalar (PInt 99)) /\
+     alias_getitem am (KName "A") s1 = alias_getitem am (KName "X") s1 /\
+     let s2 := fst (alias_step am (SetAttr "A" (OScalar (PInt 5)) None) s1) in
+     snd (alias_step am (SetAttr "A" (OScalar (PInt 5)) None) s1) = Ret tt /\
+     assoc "A" (adict s2) = Some (OScalar (PInt 99)) /\
+     alias_getitem am (KName "X") s2 = Ret [PFlt (FHalf 10); PFlt (FHalf 10); PFlt (FHalf 10)]%Z /\
+     alias_getitem am (KName "X") s2 <> alias_getitem am (KName "X") s1).
+Proof.
+  exists am3, (fst mA), (AddAttribute "A" (OScalar (PInt 99))).
+  split; [exact (proj1 am3_wf)|]. split; [exact (proj2 am3_wf)|]. split; [exact mA_inv|].
+  split; [vm_compute; left; reflexivity|]. split; [reflexivity|]. split; [vm_compute; reflexivity|].
+  vm_compute. repeat split. discriminate.
+Qed.
+
 (* the hypotheses of preferred_title are satisfiable (A is the preferred name of X, declared through a chain of three) *)
 Example preferred_title_hypotheses :
   In "A" (apref am3) /\ aget (amap am3) "A" = "X" /\ ~ In "X" (akeys (amap am3)) /\
